@@ -108,6 +108,8 @@ PROPS = {
                 "sam.ToPairAlign in-process in directory mode, files read back in query order",
     },
     "C11": {
+        "extra_imports": ["Gofasta.Lemmas.FastaWrite"],
+        "extra_theorems": ["Gofasta.Lemmas.FastaWrite.written_reads_back", "Gofasta.Lemmas.FastaWrite.file_bytes"],
         "streams": {"C11": (450, 8000)},
         "thorough_seeds": 3,
         "rule": "SAM files as C02 (non-conflicting records, 0-5 insertions) with a GenBank or GFF annotation of the same reference, reference from file or from "
@@ -115,6 +117,8 @@ PROPS = {
                 "written by the real sam.ToPairAlign; a third (queries without insertions): vs variants.Variants on reference + the real toMultiAlign --pad rows",
     },
     "C15": {
+        "extra_imports": ["Gofasta.Lemmas.FastaWrite"],
+        "extra_theorems": ["Gofasta.Lemmas.FastaWrite.written_reads_back", "Gofasta.Lemmas.FastaWrite.file_bytes"],
         "streams": {"C15v": (300, 5000), "C15toma": (300, 5000), "C15topa": (300, 5000)},
         "thorough_seeds": 3,
         "cli": True,
